@@ -82,7 +82,9 @@ let () =
         if mp = plan then Printf.printf "OK %s\n" id
         else Printf.printf "MISMATCH %s segmenter-tool model_plan=%s\n" id mp
       | ["R"; id; d; samples; obs] ->
-        let m = counts_string (resegment (n_of_dec d) (parse_samples samples)) in
+        let frags = if samples = "" || samples = "-" then [] else
+            L.map (fun fr -> L.map parse_samples (split_on ';' fr)) (split_on '|' samples) in
+        let m = counts_string (resegment_file (n_of_dec d) frags) in
         if m = obs then Printf.printf "OK %s\n" id
         else Printf.printf "MISMATCH %s resegment model=%s\n" id m
       | ["F"; id; d; frags; obs] ->
